@@ -125,7 +125,7 @@ var (
 func Amount(t *rapid.T, label string, denom string) (*big.Int, string) {
 	classes := []string{"small", "typical", "typical", "burn-limit"}
 	if denom == world.Uhuge {
-		classes = []string{"small", "typical", "pow2", "pow2", "max", "word-boundary"}
+		classes = []string{"small", "typical", "pow2", "pow2", "max", "word-boundary", "anybits"}
 	}
 	class := pick(t, label+"/class", classes)
 	switch class {
@@ -135,6 +135,8 @@ func Amount(t *rapid.T, label string, denom string) (*big.Int, string) {
 		return big.NewInt(rapid.Int64Range(100, 1_000_000_000).Draw(t, label)), class
 	case "burn-limit":
 		return new(big.Int).Add(burnLimit, big.NewInt(int64(rapid.IntRange(-3, 3).Draw(t, label)))), class
+	case "anybits":
+		return AnyBits(t, label), class
 	case "word-boundary":
 		// around the 32-, 63- and 64-bit boundaries
 		e := pick(t, label+"/wexp", []uint{31, 32, 63, 63, 64, 64, 127, 128})
@@ -152,6 +154,18 @@ func Amount(t *rapid.T, label string, denom string) (*big.Int, string) {
 	default:
 		return new(big.Int).Set(world.MaxUint256), class
 	}
+}
+
+// AnyBits draws a positive amount of any magnitude up to 2^256-1: the bit length is uniform in
+// 1..256 and the lower bits are random, so that every word size (32, 64, 128 bits) and the space
+// between them is met with the same frequency.
+func AnyBits(t *rapid.T, label string) *big.Int {
+	bits := 1 + uniform(t, label+"/bits", 256)
+	raw := rapid.SliceOfN(rapid.Byte(), 32, 32).Draw(t, label+"/raw")
+	v := new(big.Int).SetBytes(raw)
+	v.Rsh(v, uint(256-bits))
+	v.SetBit(v, bits-1, 1)
+	return v
 }
 
 // ---------------------------------------------------------------------------------------------
